@@ -41,25 +41,41 @@ def step (v : VC) (toks : List String) : VC × String :=
 
 def model : Model := { σ := VC, init := VC.newWithIntervals 0 1 1, step := step }
 
-def nodeStep (n : NodeVC) (toks : List String) : NodeVC × String :=
+/-- driver state of the node-level model: the control pair plus the last approval request
+    `(amount, approved)` — `add_keysend`/`add_invoice` answer a repeat of an APPROVED request with
+    `Ok(true)` without counting it again, while a repeat of a refused one is a fresh attempt. -/
+structure NodeDrv where
+  n : NodeVC
+  last : Option (Nat × Bool) := none
+
+def nodeStep (d : NodeDrv) (toks : List String) : NodeDrv × String :=
   match toks with
   | ["spec", l, t] =>
     match nat? l, itype? t with
-    | some l, some t => let n' := NodeVC.ofSpec ⟨l, t⟩; (n', "ok " ++ digest n'.mem)
-    | _, _ => (n, "bad-op")
+    | some l, some t => let n' := NodeVC.ofSpec ⟨l, t⟩; ({ n := n', last := none }, "ok " ++ digest n'.mem)
+    | _, _ => (d, "bad-op")
   | ["insert", now, amt] =>
     match nat? now, nat? amt with
     | some now, some amt =>
-      match n.insert now amt with
-      | none => (n, "panic")
-      | some (n', ok) => (n', (if ok then "true " else "false ") ++ digest n'.mem)
-    | _, _ => (n, "bad-op")
+      match d.n.insert now amt with
+      | none => (d, "panic")
+      | some (n', ok) => ({ n := n', last := some (amt, ok) }, (if ok then "true " else "false ") ++ digest n'.mem)
+    | _, _ => (d, "bad-op")
+  | ["dup", now] =>
+    match nat? now, d.last with
+    | some now, some (amt, approved) =>
+      if approved then (d, "true " ++ digest d.n.mem)       -- already have this payment: no insert
+      else
+        match d.n.insert now amt with
+        | none => (d, "panic")
+        | some (n', ok) => ({ n := n', last := some (amt, ok) }, (if ok then "true " else "false ") ++ digest n'.mem)
+    | _, _ => (d, "bad-op")
   | ["restart", l, t] =>
     match nat? l, itype? t with
-    | some l, some t => let n' := n.restart ⟨l, t⟩; (n', "ok " ++ digest n'.mem)
-    | _, _ => (n, "bad-op")
-  | _ => (n, "bad-op")
+    | some l, some t => let n' := d.n.restart ⟨l, t⟩; ({ d with n := n' }, "ok " ++ digest n'.mem)
+    | _, _ => (d, "bad-op")
+  | _ => (d, "bad-op")
 
-def nodeModel : Model := { σ := NodeVC, init := NodeVC.ofSpec ⟨0, .hourly⟩, step := nodeStep }
+def nodeModel : Model := { σ := NodeDrv, init := { n := NodeVC.ofSpec ⟨0, .hourly⟩ }, step := nodeStep }
 
 end VlsModel.Drv.Velocity
